@@ -389,6 +389,63 @@ def run(ctx):
             ctx.ob("K5", "%s::parser#recursion-depth" % lang, True,
                    what="every recursion cycle passes a guarded entry (%s)" % sorted(short_id(x).split("::")[-1] for x in guarded), where="")
 
+    # ------------------------------------------------------------------ K6 floats that become indexes
+    # A float converted to usize and used to index a sequence is in range only if the float is: discover every
+    # float->usize conversion in query-reachable code, the scalar float fields it is computed from, and require that every
+    # producer of such a field (struct / variant literal anywhere in the workspace) either clamps the value, copies it from
+    # a field of the same name, or takes it from a parameter. A producer fed from query text (a literal of the AST)
+    # without a clamp lets `percentile_disc(x, 1.5)` index past the end of the sorted values.
+    idx_fields = {}
+    for fid in sorted(reach):
+        f = P.fns[fid]
+        if f.krate not in ("grafeo_core", "grafeo_engine", "grafeo_adapters", "grafeo_common"):
+            continue
+        fx = None
+        for b in f.blocks:
+            if b["cl"]:
+                continue
+            for st in b["s"]:
+                rv = st[1]
+                if rv[0] == "cast" and rv[1] == "FloatToInt" and rv[3] in ("usize", "u64", "u32"):
+                    fx = fx or FlowCx(P, f)
+                    for tg in fx.tags(rv[2]):
+                        if tg.startswith("cell:") and "." in tg:
+                            owner, fld = tg[5:].rsplit(".", 1)
+                            for a in P.adts.values():
+                                for v in a["variants"]:
+                                    if v["name"] == owner or a["id"].endswith("::" + owner):
+                                        if any(ff[0] == fld and ff[1] in ("f64", "f32") for ff in v["fields"]):
+                                            idx_fields.setdefault(fld, []).append(f.loc(st[2]))
+    ctx.floor("K6", len(idx_fields), 1, "float fields that reach a float->usize conversion in query-reachable code")
+    nprod = 0
+    for fld in sorted(idx_fields):
+        for f in sorted(P.fns.values(), key=lambda f: f.id):
+            if "::tests::" in f.id or f.krate not in ("grafeo_core", "grafeo_engine", "grafeo_adapters"):
+                continue
+            fx = None
+            for b in f.blocks:
+                if b["cl"]:
+                    continue
+                for st in b["s"]:
+                    pl, rv, ln = st
+                    if not (rv[0] == "agg" and rv[1] == "adt" and len(rv) > 5):
+                        continue
+                    names = [str(n).strip('"') for n in rv[5]]
+                    if fld not in names:
+                        continue
+                    fx = fx or FlowCx(P, f)
+                    tg = fx.tags(rv[4][names.index(fld)])
+                    raw = sorted(t for t in tg if t.startswith("cell:") and not t.endswith("." + fld) and t not in ("cell:Some.0",))
+                    if not raw:
+                        continue      # None, a constant, a parameter or a copy of a field of the same name
+                    nprod += 1
+                    clamped = any(t.startswith("call:") and t.endswith(("::clamp", "::min", "::max")) for t in tg)
+                    ctx.ob("K6", "%s#%s-bounded" % (fkey(f) if in_front(f) else short_id(f.id), fld), clamped,
+                           what="%s builds a `%s` from %s without clamping it, and `%s` is converted to an index (%s): a value "
+                                "outside its range in the query text panics the executor with an index out of bounds"
+                                % (short_id(f.id), fld, raw[:3], fld, idx_fields[fld][0]), where=f.loc(ln))
+    ctx.floor("K6", nprod, 2, "producers of index-feeding float fields from raw values")
+
     # ------------------------------------------------------------------ K5b recursion on plan / AST depth after the parser
     # The parsers bound *nesting*, but operator chains (`a + b + c ...`, `x AND y AND ...`, `.out().out()...`) are built in
     # loops and deepen the AST / plan by one level per element. Every later stage that recurses on that depth needs its
